@@ -57,7 +57,9 @@ pub fn make_module() -> KMap {
 
         match ctx.instance_and_args(is_list, expected_error)? {
             (KValue::List(l), [KValue::List(other)]) => {
-                l.data_mut().extend(other.data().iter().cloned());
+                // Copy the other list's data first, the list could be getting extended with itself
+                let other_data = other.data().clone();
+                l.data_mut().extend(other_data);
                 Ok(KValue::List(l.clone()))
             }
             (KValue::List(l), [KValue::Tuple(other)]) => {
@@ -396,7 +398,10 @@ pub fn make_module() -> KMap {
 
         match ctx.instance_and_args(is_list, expected_error)? {
             (KValue::List(a), [KValue::List(b)]) => {
-                std::mem::swap(a.data_mut().deref_mut(), b.data_mut().deref_mut());
+                // Swapping a list with itself is a no-op
+                if !a.is_same_instance(b) {
+                    std::mem::swap(a.data_mut().deref_mut(), b.data_mut().deref_mut());
+                }
                 Ok(KValue::Null)
             }
             (instance, args) => unexpected_args_after_instance(expected_error, instance, args),
